@@ -382,6 +382,11 @@ func waitsIn(w *World, fn *ssa.Function, seen map[*ssa.Function]bool, depth int)
 				if p := blockingPrimitive(x); p != "" {
 					return []string{ssaFuncKey(fn) + " (" + p + ")"}
 				}
+				if lockPeerWrites {
+					if p := peerWritePrimitive(x); p != "" {
+						return []string{ssaFuncKey(fn) + " (" + p + ")"}
+					}
+				}
 				for _, callee := range syncCallees(w, x) {
 					if chain := waitsIn(w, callee, seen, depth+1); chain != nil {
 						return append([]string{ssaFuncKey(fn)}, chain...)
@@ -446,6 +451,26 @@ var lockWorld *World
 
 // ruleNoWaitUnderLock: while one of the given mutex fields is held, nothing is called that can wait for
 // another party.
+// lockPeerWrites: when set, a write to a peer (an invoke of Write / WriteMsg / WriteMessage / WriteTo on an
+// interface-typed connection or response writer) counts as waiting for another party: over TCP it blocks as
+// long as the peer does not drain its socket.
+var lockPeerWrites bool
+
+func peerWritePrimitive(c ssa.CallInstruction) string {
+	cc := c.Common()
+	if !cc.IsInvoke() {
+		return ""
+	}
+	switch cc.Method.Name() {
+	case "Write", "WriteMsg", "WriteMessage", "WriteTo", "WriteJSON":
+		if cc.Method.Pkg() != nil && (cc.Method.Pkg().Path() == "github.com/sirupsen/logrus" || cc.Method.Pkg().Path() == "hash") {
+			return ""
+		}
+		return "a write to the peer (" + cc.Method.FullName() + ")"
+	}
+	return ""
+}
+
 func ruleNoWaitUnderLock(w *World, r *Report, rule string, isWideLock func(m *types.Var) bool, consequence string) {
 	lockWorld = w
 	type res struct {
@@ -502,6 +527,12 @@ func ruleNoWaitUnderLock(w *World, r *Report, rule string, isWideLock func(m *ty
 						if p := blockingPrimitive(x); p != "" {
 							rs.bad = append(rs.bad, fmt.Sprintf("%s: %s calls %s while holding %s: %s", w.Pos(in.Pos()), ssaFuncKey(fn), p, m.Name(), consequence))
 							continue
+						}
+						if lockPeerWrites {
+							if p := peerWritePrimitive(x); p != "" {
+								rs.bad = append(rs.bad, fmt.Sprintf("%s: %s performs %s while holding %s: %s", w.Pos(in.Pos()), ssaFuncKey(fn), p, m.Name(), consequence))
+								continue
+							}
 						}
 						for _, callee := range syncCallees(w, x) {
 							if chain := waitsIn(w, callee, map[*ssa.Function]bool{}, 0); chain != nil {
